@@ -576,7 +576,12 @@ class DatasetProcessor:
             # a restarted run has no alignment files: the only "file" of the experiment is the prefix of its saved files.
             # The number of input files and the grouping mode are those of the run that saved the assignments, unless
             # --read_group is given again
-            saves_file = sample.file_list[0][0]
+            if self.args.input_data.input_type == "save":
+                saves_file = sample.file_list[0][0]
+            else:
+                # --read_assignments was added to a command line that still names the alignment / read files: these files are
+                # not read, the experiment they describe is restarted from the (first) prefix, as it always was
+                saves_file = self.args.read_assignments[0]
             saved_file_count, saved_read_group = self.load_run_setup(saves_file)
             if saved_file_count > 0:
                 input_file_count = saved_file_count
